@@ -51,6 +51,22 @@ TRUSTED = [
 QUERIES = [("counter", b"a.b"), ("gauge", b"a.b.c"), ("observer", b"b"), ("counter", b"a.z"), ("counter", b"z.z.z"), ("gauge", b"*.a")]
 
 
+def resplit_pairs():
+    """pairs of glob-only configurations (unordered mode and ordered mode) whose match strings concatenate to the same bytes with the
+    rule boundary at another place - a reload that "recognises" the rule set by such a fingerprint keeps stale analysis results"""
+    out = []
+    for (a1, a2), (b1, b2), probes in (
+            ((b"web.*.ti", b"meweb.api.count"), (b"web.*.time", b"web.api.count"), [b"web.api.time", b"web.api.count", b"web.x.time", b"web.x.ti"]),
+            ((b"a.*.b", b"ca.d.e"), (b"a.*.bc", b"a.d.e"), [b"a.d.bc", b"a.d.e", b"a.x.b", b"a.x.bc"]),
+            ((b"x.*.a", b"bx.z.ab"), (b"x.*.ab", b"x.z.ab"), [b"x.z.ab", b"x.q.ab", b"x.q.a", b"x.z.a"])):
+        for unordered in (True, False):
+            d = GM.defaults(disable_ordering=True) if unordered else None
+            mk = lambda m1, m2: (d, [GM.rule(m1, b"first_$1", help=b"r0", labels=[(b"c1", b"$1")]), GM.rule(m2, b"second", help=b"r1")])
+            out.append(([(mk(a1, a2), "ok"), (mk(b1, b2), "ok"), (mk(a1, a2), "ok")], probes))
+            out.append(([(mk(b1, b2), "ok"), (mk(a1, a2), "ok"), (mk(b1, b2), "ok")], probes))
+    return out
+
+
 def run(rep, tier, seed, replay):
     if replay and E2E.replay_case(rep, "C14", replay):
         rep.cov.setdefault("trusted_base", ["end-to-end replay of one case against the built binary"])
@@ -65,7 +81,23 @@ def run(rep, tier, seed, replay):
         seqs = [rp["seq"]]
     cases, meta = [], []
     classes = {}
-    for _ in range(0 if replay else nseq):
+    directed = [] if replay else resplit_pairs()
+    for it in range(0 if replay else nseq + len(directed)):
+        if it < len(directed):
+            steps, probes = directed[it]
+            qs = [(t, n) for n in probes for t in ("counter", "gauge", "observer")]
+            qops = [GM.query_op(t, n) for t, n in qs]
+            for cache in (("none", 0), ("lru", 1000)):
+                ops = []
+                for cfg, e in steps:
+                    ops.append(GM.load_op(cfg))
+                    ops += qops
+                cases.append(GM.case_line(cache[0], cache[1], ops))
+                meta.append((steps, qs, cache))
+            for cfg, e in steps:
+                cases.append(GM.case_line("none", 0, [GM.load_op(cfg)] + qops))
+                meta.append(("fresh", cfg, qs))
+            continue
         steps = []
         for _ in range(rnd.randint(2, 6)):
             if rnd.random() < 0.5:
@@ -153,6 +185,7 @@ def run(rep, tier, seed, replay):
     if not replay and len(rep.violations) < 5:
         # the binary's own reload paths (/-/reload and SIGHUP, mapping file behind a re-pointed symbolic link)
         E2E.run(rep, "C14", tier, seed, n_quick=40, n_thorough=1200, gen=E2E.gen_reload_case, key="e2e_reload")
+        E2E.run(rep, "C14", tier, seed, n_quick=6, n_thorough=60, gen=E2E.gen_inplace_reload_case, key="e2e_inplace")
         rep.cov["rule"] += ("; plus %d end-to-end histories of 3-5 reloads of the built binary (valid ones changing defaults and rules, invalid ones), by /-/reload or SIGHUP, "
                             "lines and a scrape after each, compared with the model" % rep.extra.get("e2e_reload_cases", 0))
     rep.sample(dict(case=cases[0][:600], impl=impl[0][:8]))
